@@ -42,6 +42,7 @@ func init() {
 			{ID: "C15-R19", Title: "a byte of a string does not stand for a character (shared with C16-R15)", Floor: 1, Run: stringBytesAreNotCharacters},
 			{ID: "C15-R20", Title: "three-way results are -1, 0 or 1 (shared with C16-R29)", Floor: 10, Run: threeWayResultsAreMinusOneZeroOrOne},
 			{ID: "C15-R21", Title: "order and equality of numbers look at the numbers", Floor: 4, Run: orderAndEqualityLookAtTheNumbers},
+			{ID: "C15-R22", Title: "equality is not inherited from an embedded object type", Floor: 1, Run: equalityIsNotInherited},
 		},
 	})
 }
